@@ -25,7 +25,8 @@ Definition pmbits (G : graph) (idxs : list nat) : list bool := flat_map (fun i =
    hypothesis of C16_every_occurrence_is_recognised *)
 Definition fcase (G : graph) (idxs : list nat) (e1 e2 : list bool) : bool := beq (fgbits G idxs) e1 && beq (pmbits G idxs) e2 && gwfb G.
 """
-FAMILY = ["O[c+]1cccccc1", "C1OCO1", "CC(CCCc1ccccc1)c1cc2nc(O)c3c(c2cc1O)CCCC3", "Oc1ccccc1", "COc1ccccc1", "OC1CCCCC1", "CC(=O)OC(C)=O", "COC(=O)OC", "CC(=O)OO", "OCO", "COCOC", "COCO",
+FAMILY = ["Cn1cccc1O", "CC(=O)n1cccc1O", "Oc1cccn1-c1ccccc1", "COc1ccc(C)n1C",      # hydroxypyrroles with a substituted ring nitrogen
+          "O[c+]1cccccc1", "C1OCO1", "CC(CCCc1ccccc1)c1cc2nc(O)c3c(c2cc1O)CCCC3", "Oc1ccccc1", "COc1ccccc1", "OC1CCCCC1", "CC(=O)OC(C)=O", "COC(=O)OC", "CC(=O)OO", "OCO", "COCOC", "COCO",
           "C1COCO1", "C1OCOCO1", "O=C1OCCO1", "CC(=O)N", "NC(=O)O", "NC(N)=O", "CC(=O)SC", "CC(O)=S", "C=CO", "CC(C)=O", "CC=O", "CC#N", "CN", "Nc1ccccc1",
           "ON", "O=NO", "C[N+](=O)[O-]", "CSC", "OC1=CC=CN1", "Oc1ccc[nH]1", "OC(O)O", "OC(O)(O)C", "C1CO1", "O1C=CC=C1", "c1ccoc1", "OB(O)c1ccccc1",
           "CCOC(C)=O", "CC(=O)O", "OC=O", "O=C(O)c1ccccc1O", "CC(=O)Oc1ccccc1C(=O)O", "OCC(O)CO", "C1CC2OC2C1", "O=C1CCC(=O)O1", "OC1OCCCC1"]
